@@ -120,7 +120,12 @@ def build(p):
         subs = []
         b = body
         while b[0] == "bind":
-            subs.append(build(b[2]))
+            if b[2][0] == "closure":
+                # a nested partial application: the callee is called with stored ++ call arguments
+                inner, stored = build(b[2][1]), tuple(jnp.asarray(x, dtype=jnp.int32) for x in b[2][2])
+                subs.append(lambda *a, _i=inner, _s=stored: _i(*_s, *a))
+            else:
+                subs.append(build(b[2]))
             b = b[4]
 
         def fn(*args):
